@@ -241,7 +241,7 @@ def _int(n):
 
 
 @st.composite
-def valid_spec(draw, element=None, max_nodes=60, max_depth=6, elements=None):
+def valid_spec(draw, element=None, max_nodes=60, max_depth=6, elements=None, avoid=()):
     T = tables()
     if element is None:
         pool = elements or sorted(e for e in T.known if T.cost[e] < INF)
@@ -268,7 +268,7 @@ def valid_spec(draw, element=None, max_nodes=60, max_depth=6, elements=None):
             size[0] += sum(spec_size(k) for k in kids)
         else:
             spec, alpha, mixed, dfa = T.lang(rn)
-            usable = T.usable(rn)
+            usable = [x for x in T.usable(rn) if x not in avoid]
             d = T.d2a(rn)
             budget = draw(_BUDGET_TOP if depth <= 1 else _BUDGET_DEEP)
             s = dfa.start
